@@ -8,8 +8,9 @@ typedef void (*slk_emit_fn)(const char* line);          // print one observation
 typedef long (*slk_peek_fn)(char kind, long id);        // identity the test script has for the next client announced by l<id> / e<id>, or -1
 typedef void (*slk_announce_fn)(long newid);            // the client with this identity is about to be created
 typedef void (*slk_foreign_fn)(void);                   // the epoll script ran out: another thread interrupts
+typedef void (*slk_now_fn)(void);                       // run() has just sampled the clock (start of an iteration)
 
-void slk_reset(slk_emit_fn emit, slk_peek_fn peek, slk_announce_fn announce, slk_foreign_fn foreign);
+void slk_reset(slk_emit_fn emit, slk_peek_fn peek, slk_announce_fn announce, slk_foreign_fn foreign, slk_now_fn now);
 void slk_arm(int on);                 // interposition on/off (off: everything is forwarded to libc)
 long long slk_clock(void);
 void slk_adv(long long d);
